@@ -449,6 +449,28 @@ def _messaging(which):
           len(fed) == len(binary) and all(f[0] is b and f[1] == 0 for f, b in zip(fed, binary)))
         q = t.attrs['_incoming_frame_queue'].attrs['_queue']
         P('messaging:every_parsed_frame_queued_for_the_receiver_in_order', len(q) == len(frames_out) and all(a is b for a, b in zip(q, frames_out)))
+        if which == 'websockets':
+            # send side: send_frame queues, producer_handler writes every queued frame once, in order, as its serialisation
+            frs = [SOpaque('frame', 'outgoing%d' % i, attrs={}) for i in range(2)]
+            wires = {fr.ident: SOpaque('bytes', 'serialized%d' % i) for i, fr in enumerate(frs)}
+            log.returns['serialize'] = lambda E_, o, m, a, k: wires[o.ident]
+            log.returns['send'] = lambda E_, o, m, a, k: (sent.append(a[0]), aio.Awaitable('ready'))[1]
+            for fr in frs:
+                E.await_value(E.call(E.getattr(t, 'send_frame'), [fr]))
+            P('messaging:send_frame_queues_without_writing', not sent)
+
+            def park(E_, what):
+                E_.throw('CancelledError')          # the producer is parked on its empty queue: its handler cancels it
+            E.suspend_hook = park
+            E.unroll_limit = 4
+            wsock = SOpaque('websocket', 'websockets-socket')
+            try:
+                E.await_value(E.call(E.getattr(t, 'producer_handler'), [wsock]))
+                P('messaging:producer_serves_until_cancelled', False)
+            except PyExc as e:
+                P('messaging:producer_serves_until_cancelled', e.value.cls.name == 'CancelledError')
+            P('messaging:every_queued_frame_written_once_in_order_as_its_serialisation',
+              len(sent) == 2 and sent[0] is wires[frs[0].ident] and sent[1] is wires[frs[1].ident])
         if which != 'websockets':
             fr = SOpaque('frame', 'outgoing', attrs={})
             wire = SOpaque('bytes', 'serialized')
